@@ -398,26 +398,32 @@ def c06_r3(ctx):
                       fi.loc(c), okmsg="object-field recursion re-derives the type context")
 
 
-@rule("C06.R4", "required-ness: no default only for non-null fields without a default literal; alias keeps the default", min_instances=7)
+@rule("C06.R4", "required-ness: no default only for non-null fields without a default literal; alias keeps the default", min_instances=11, also=["C19"])
 def c06_r4(ctx):
     repo = ctx.repo
     fi = repo.func(IF + "parse_input_field_default_value")
 
-    def mk(has_default, type_nonnull, ann_optional, has_node=True):
+    def mk(has_default, type_nonnull, ann_optional, has_node=True, ann_subscript=None):
+        sub = ann_optional if ann_subscript is None else ann_subscript
+
         def atom(e):
             t = norm(e)
-            if t == "node":
+            if t in ("node", "node is not None"):
                 return has_node
+            if t == "node is None":
+                return not has_node
             if t == "node.default_value":
                 return has_default
             if t == "isinstance(node.type, NonNullTypeNode)":
                 return type_nonnull
             if t == "isinstance(annotation, ast.Subscript)":
-                return ann_optional
+                return sub
             if t in ("isinstance(annotation.value, ast.Name)",):
+                return sub
+            if t in ("annotation.value.id == OPTIONAL", "annotation.value.id == 'Optional'"):
                 return ann_optional
-            if t == "annotation.value.id == OPTIONAL":
-                return ann_optional
+            if t in ("annotation.value.id != OPTIONAL", "annotation.value.id != 'Optional'"):
+                return not ann_optional
             return None
         return atom
     o = Interp(fi, mk(True, False, True)).run()
@@ -428,6 +434,19 @@ def c06_r4(ctx):
     ctx.check(len(o) == 1 and (o[0].value is None or is_const(o[0].value, None)), key(fi, "required"), f"non-null field without default must stay required: {[x.text() for x in o]}", fi.loc(), okmsg="non-null, no default -> required")
     o = Interp(fi, mk(True, True, False)).run()
     ctx.check(len(o) == 1 and "parse_input_const_value_node" in norm(o[0].value), key(fi, "non-null with default"), f"{[x.text() for x in o]}", fi.loc(), okmsg="non-null with default -> translated value")
+    # schemas without SDL nodes (introspection): the annotation alone decides
+    o = Interp(fi, mk(False, False, True, has_node=False)).run()
+    ctx.check(len(o) == 1 and norm(o[0].value) == "generate_constant(None)", key(fi, "no node: Optional"),
+              f"a nullable input field of a schema without SDL nodes (introspection) must default to None: {[x.text() for x in o]}", fi.loc(), okmsg="no SDL node, Optional[...] annotation -> None")
+    o = Interp(fi, mk(False, False, False, has_node=False)).run()
+    ctx.check(len(o) == 1 and (o[0].value is None or is_const(o[0].value, None)), key(fi, "no node: required"),
+              f"a non-null input field of a schema without SDL nodes must stay required: {[x.text() for x in o]}", fi.loc(), okmsg="no SDL node, bare annotation -> required")
+    o = Interp(fi, mk(False, False, False, has_node=False, ann_subscript=True)).run()
+    ctx.check(len(o) == 1 and (o[0].value is None or is_const(o[0].value, None)), key(fi, "no node: List"),
+              f"a `[T]!` input field (List[...] annotation, not Optional) of a schema without SDL nodes must stay required: {[x.text() for x in o]}", fi.loc(), okmsg="no SDL node, List[...] annotation -> required")
+    o = Interp(fi, mk(False, False, False, has_node=True, ann_subscript=False)).run()
+    ctx.check(len(o) == 1 and norm(o[0].value) == "generate_constant(None)", key(fi, "nullable by node"),
+              f"the SDL node alone (type without `!`) must suffice for the None default: {[x.text() for x in o]}", fi.loc(), okmsg="nullable by SDL node alone -> None")
     # alias never drops the default
     pv = repo.func("client_generators.input_types:InputTypesGenerator._process_field_value")
 
@@ -763,3 +782,134 @@ def c07_r4(ctx):
       also=["C03", "C06", "C19"])
 def c07_r5(ctx):
     _optional_nesting(ctx, ctx.repo.func(IF + "parse_input_field_type"), "input", "PlainSerializer")
+
+
+# ====================================================================== operation variables: wrappers of the declared type
+@rule("C03.R6", "method parameters follow the wrappers of the variable's declared type: List[...] per list, Optional iff nullable, custom scalar reported through lists",
+      min_instances=6, also=["C07", "C04"])
+def c03_r6(ctx):
+    repo = ctx.repo
+    fi = repo.func("client_generators.arguments:ArgumentsGenerator._parse_type_node")
+    kinds = ("NamedTypeNode", "ListTypeNode", "NonNullTypeNode")
+
+    def mk(kind):
+        def atom(e):
+            ee = strip_pre(e)
+            if isinstance(ee, ast.Call) and is_name(ee.func, "isinstance") and len(ee.args) == 2 and norm(ee.args[0]) == "node" and norm(ee.args[1]) in kinds:
+                return norm(ee.args[1]) == kind
+            return None
+        return atom
+    rec = "self._parse_type_node("
+    # list
+    o = [x for x in Interp(fi, mk("ListTypeNode")).run() if x.kind == "return"]
+    good = len(o) == 1 and isinstance(o[0].value, ast.Tuple) and len(o[0].value.elts) == 2
+    if good:
+        ann, sc = strip_pre(o[0].value.elts[0]), strip_pre(o[0].value.elts[1])
+        good = isinstance(ann, ast.Call) and dotted(ann.func) == "generate_list_annotation"
+        if good:
+            sl, fl = argv(ann, 0, "slice_"), argv(ann, 1, "nullable")
+            good = sl is not None and norm(sl).startswith(rec) and norm(sl).endswith("[0]") and "node.type" in norm(sl) and fl is not None and norm(fl) == "nullable"
+            ctx.check(norm(sc).startswith(rec) and norm(sc).endswith("[1]"), key(fi, "list: custom scalar"),
+                      f"the custom scalar used by the items of a list variable is reported as `{norm(sc)}`: the client module then lacks the scalar's imports (NameError on import) and the variable is not serialised",
+                      fi.loc(), okmsg="list variable: the items' custom scalar is passed on")
+    ctx.check(good, key(fi, "list"), f"a list variable must become generate_list_annotation(<item annotation>, nullable): with the flag dropped a required `[ID!]!` variable turns into an optional "
+              f"parameter (default UNSET) that can be omitted; got {[x.text()[:160] for x in o]}", fi.loc(), okmsg="list variable -> List[item] wrapped by the incoming flag")
+    # non-null
+    o = [x for x in Interp(fi, mk("NonNullTypeNode")).run() if x.kind == "return"]
+    good = len(o) == 1 and isinstance(strip_pre(o[0].value), ast.Call) and norm(strip_pre(o[0].value).func) == "self._parse_type_node" \
+        and norm(argv(strip_pre(o[0].value), 0, "node") or ast.Constant(0)) == "node.type" and is_const(argv(strip_pre(o[0].value), 1, "nullable"), False)
+    ctx.check(good, key(fi, "non-null"), f"a non-null wrapper must recurse with nullable=False; got {[x.text()[:120] for x in o]}", fi.loc(), okmsg="non-null variable -> recursion with nullable=False")
+    # named
+    o = [x for x in Interp(fi, mk("NamedTypeNode")).run() if x.kind == "return"]
+    good = len(o) == 1 and isinstance(strip_pre(o[0].value), ast.Call) and norm(strip_pre(o[0].value).func) == "self._parse_named_type_node" \
+        and norm(argv(strip_pre(o[0].value), 0, "node") or ast.Constant(0)) == "node" and norm(argv(strip_pre(o[0].value), 1, "nullable") or ast.Constant(0)) == "nullable"
+    ctx.check(good, key(fi, "named"), f"a named type must be parsed with the incoming flag; got {[x.text()[:120] for x in o]}", fi.loc(), okmsg="named variable type -> parsed with the incoming flag")
+    d = [a for a in zip(fi.node.args.args[::-1], fi.node.args.defaults[::-1]) if a[0].arg == "nullable"]
+    ctx.check(bool(d) and is_const(d[0][1], True), key(fi, "entry default"), "the entry default of `nullable` must be True (a variable type without `!` is optional)", fi.loc(), okmsg="entry: nullable defaults to True")
+    # named types: flag applied, custom scalar reported
+    nf = repo.func("client_generators.arguments:ArgumentsGenerator._parse_named_type_node")
+    outs = [x for x in Interp(nf, lambda e: (True if norm(strip_pre(e)) in ("self.schema.type_map.get(node.name.value)", "type_") else None)).run() if x.kind == "return"]
+    good = bool(outs) and all(isinstance(strip_pre(x.value), ast.Tuple) and isinstance(strip_pre(x.value).elts[0], ast.Call) and dotted(strip_pre(x.value).elts[0].func) == "generate_annotation_name"
+                              and norm(argv(strip_pre(x.value).elts[0], 1, "nullable") or ast.Constant(0)) == "nullable" for x in outs)
+    ctx.check(good, key(nf, "flag"), f"named variable types are not wrapped by the incoming flag: {[x.text()[:120] for x in outs][:2]}", nf.loc(), okmsg="named type: Optional iff the incoming flag")
+    src = norm(nf.node)
+    ctx.check("used_custom_scalar = node.name.value" in src or "used_custom_scalar = name" in src, key(nf, "custom scalar reported"),
+              "a configured custom scalar used as variable type is not reported to the caller (its imports / serialize call are then missing)", nf.loc(), okmsg="configured custom scalar reported")
+
+
+# ====================================================================== the definition of a selected field
+@rule("C05.R7", "a selected field is typed from its own schema definition; the meta field __typename is String!; unknown fields are rejected", min_instances=3, also=["C01", "C08"])
+def c05_r7(ctx):
+    repo = ctx.repo
+    fi = repo.func("client_generators.result_types:ResultTypesGenerator._get_field_from_schema")
+
+    def first(c, name):
+        v = argv(c, 0, name)
+        return strip_pre(v) if v is not None else None
+    res = {}
+    for tn in (True, False):
+        def atom(e, tn=tn):
+            t = norm(strip_pre(e))
+            if t in ("field_name == TYPENAME_FIELD_NAME", "field_name == '__typename'"):
+                return tn
+            if t in ("field_name != TYPENAME_FIELD_NAME", "field_name != '__typename'"):
+                return not tn
+            if " in " in t and t.startswith("field_name"):
+                return False      # written with a membership test instead of try/except: the missing-field scenario
+            return None
+        res[tn] = Interp(fi, atom, implicit_raises={"KeyError"}).run()
+    found = [o for o in res[False] if o.kind == "return" and not any("implicit" in t for t in o.trace)]
+    ctx.check(any("self.schema.type_map[type_name]" in norm(strip_pre(o.value)) and norm(strip_pre(o.value)).endswith("[field_name]") for o in found) or
+              any("fields[field_name]" in norm(strip_pre(o.value)) or "fields.get(field_name" in norm(strip_pre(o.value)) for o in found), key(fi, "schema field"),
+              f"a field present in the schema is not looked up as schema.type_map[type_name].fields[field_name]: {[o.text()[:100] for o in found]}", fi.loc(), okmsg="present field -> its own schema definition")
+    miss_tn = [o for o in res[True] if any("implicit" in t for t in o.trace) or o.kind == "raise"]
+    good = bool(miss_tn) and all(o.kind == "return" for o in miss_tn)
+    for o in miss_tn:
+        v = strip_pre(o.value) if o.kind == "return" and o.value is not None else None
+        inner = first(v, "type_") if isinstance(v, ast.Call) and dotted(v.func) == "GraphQLField" else None
+        base = first(inner, "type_") if isinstance(inner, ast.Call) and dotted(inner.func) == "GraphQLNonNull" else None
+        good = good and base is not None and norm(base) == "GraphQLString"
+    ctx.check(good, key(fi, "__typename"), f"`__typename` selected on a type that does not list it must be typed String! (non-null): {[o.text()[:100] for o in miss_tn]}; "
+              "a nullable type makes every generated `typename__` field Optional[...] and breaks discriminated unions (Literal discriminators must not be Optional)", fi.loc(),
+              okmsg="__typename fallback -> GraphQLField(GraphQLNonNull(GraphQLString))")
+    miss = [o for o in res[False] if any("implicit" in t for t in o.trace) or o.kind == "raise"]
+    ctx.check(bool(miss) and all(o.kind == "raise" and o.exc == "ParsingError" for o in miss), key(fi, "unknown field"),
+              f"a field that the type does not define must be rejected with ParsingError: {[o.text()[:100] for o in miss]}", fi.loc(), okmsg="unknown field -> ParsingError")
+
+
+@rule("C07.R7", "argument values are wrapped in the scalar's serialize function iff one is configured (parse plays no role); used scalars are recorded", min_instances=10, also=["C03", "C14"])
+def c07_r7(ctx):
+    repo = ctx.repo
+    sites = ["client_generators.arguments:ArgumentsGenerator._get_dict_value", "client_generators.custom_arguments:ArgumentGenerator._generate_return_arg_value"]
+    for fk in sites:
+        fi = repo.func(fk)
+        for used in (True, False):
+            for ser in (True, False):
+                for par in (True, False):
+                    if not used and (ser or par):
+                        continue
+
+                    def atom(e, used=used, ser=ser, par=par):
+                        t = norm(strip_pre(e))
+                        if t in ("used_custom_scalar", "used_custom_scalar is not None"):
+                            return used
+                        if t.endswith(".serialize_name") or t.endswith(".serialize_name is not None"):
+                            return ser
+                        if t.endswith(".parse_name") or t.endswith(".parse_name is not None"):
+                            return par
+                        return None
+                    outs = [o for o in Interp(fi, atom, is_effect=lambda c: norm(c.func) == "self._used_custom_scalars.append").run() if o.kind == "return"]
+                    vals = sorted({norm(strip_pre(o.deref(o.value) if isinstance(o.value, ast.Name) else o.value)) for o in outs})
+                    sc = f"scalar={'yes' if used else 'no'} serialize={'yes' if ser else 'no'} parse={'yes' if par else 'no'}"
+                    if used and ser:
+                        good = len(vals) == 1 and "generate_call(" in vals[0] and ".serialize_name)" in vals[0] and ".parse_name" not in vals[0] and "generate_name(name" in vals[0].split(".serialize_name)")[-1]
+                        want = "generate_call(func=generate_name(<scalar>.serialize_name), args=[generate_name(name)])"
+                    else:
+                        good = vals in (["generate_name(name)"], ["generate_name(name=name)"])
+                        want = "generate_name(name)"
+                    ctx.check(good, key(fi, sc), f"{fi.qualname} [{sc}] emits {vals}, expected {want}"
+                              + ("" if used and ser else ": a call of `None` (no serialize function configured) or of the parse function is emitted into the client"), fi.loc(), okmsg=f"{fi.qualname} [{sc}] -> {want[:40]}")
+                    if used:
+                        rec = all(any(norm(strip_pre(e)) == "self._used_custom_scalars.append(used_custom_scalar)" for e in o.effects) for o in outs)
+                        ctx.check(bool(outs) and rec, key(fi, sc + " recorded"), "a custom scalar used by an argument is not recorded: its imports are missing from the client module", fi.loc(),
+                                  okmsg=f"{fi.qualname} [{sc}] scalar recorded")
